@@ -5,10 +5,12 @@ K  : a history of operations / copies (three routes) / instantiations / class mu
      nat as nat; build products under coq/Extract/Heap/); compared: the full object tree below every root (instances AND class objects)
      and, for every pair of roots, the set of shared objects named by their first DFS paths (identity scan vs. the model's
      prediction of what is shared).
-O  : the property itself on the real objects: a copy is of the same class and equal in state (and in internal aliasing) to the
-     original at copy time; after the history a mutation battery is applied to every root in turn (every reachable array / list /
-     dict mutated, variables and attributes added, lags changed) and every OTHER root must be bit-for-bit unchanged; no mutable
-     object is reachable from two roots; no class-level mutable is reachable from an instance.
+O  : the property itself on the real objects: a copy (each of the three routes) is of the same class, leaves the original as it
+     was and shows the same observable state; after the history a mutation battery is applied to every root in turn (every reachable
+     array / list / dict mutated, variables and attributes added, lags changed) and every OTHER root must be bit-for-bit unchanged;
+     no mutable object is reachable from two roots; no class-level mutable is reachable from an instance.  Pairs that share because
+     the CALLER shared (one span list handed to two constructors, models handed to a linker) and reindex() lineages (C12, #21)
+     are outside the claim.
 """
 import copy as _copy
 import glob
@@ -29,11 +31,15 @@ K_NAME = ('K_heap (Heap.run_hevents: deepcopy / VectorContainer.copy / BaseLinke
 RULE = ('a case is a history over containers, parser-style BaseModel classes (CHECK is ENDOGENOUS or a separate list), Alias/Tracer '
         'mixin combinations and linkers with two submodels: instantiation (range / tuple / list / caller-shared list span, strict), '
         'the three copy routes at random points, reindex, operations on either side (item / whole-series / scalar assignment, '
-        'add_variable of five dtypes, attribute sets, strict, list mutations of names / check / endogenous / class lists, alias dict '
-        'writes, solve_t with scripted _evaluate incl. traced solves, trace_t, linker solve and submodel writes). Non-trivial = at '
-        'least one derived root (copy / sibling / reindex) and at least one mutation applied after it; distinct by hash of the case.')
-TRUSTED = ['walker of real objects -> (kind, cells) trees and the scalar encoding in harness/props/C11.py',
-           'scripted _evaluate (writes constants handed over by the harness)']
+        'add_variable of five dtypes, attribute sets, strict, list mutations of names / check / endogenous / index / class lists, alias '
+        'dict writes, solve_t with scripted _evaluate incl. traced solves, trace_t, Trace.names mutation, linker solve and submodel '
+        'writes), operations that raise included (a traced operation that raises half-way is replayed with the labels it stored). '
+        'Non-trivial = at least two derived roots (instance / copy / sibling / reindex) and at least one successful operation after '
+        'them; distinct by hash of the case.')
+TRUSTED = ['walker of real objects -> (kind, cells) trees, identity scan (id()) and the scalar encoding in harness/props/C11.py',
+           'scripted _evaluate (writes constants handed over by the harness)',
+           'OCaml extraction of Heap.check_kcase (ExtrOcamlBasic/ExtrOcamlString) and harness/heap_driver.ml (reader of the case terms)',
+           'for solve / trace_t the outcome (status, iterations, labels stored before an exception) is taken from the implementation run']
 ASSUMPTIONS = ['claim is PARTIAL: the heap model abstracts CPython object semantics (identity = location, no gc, acyclic graphs, '
                'immutable values are opaque scalars); numpy / copy.deepcopy are modelled, not verified',
                'a span list handed to two constructors, and models handed to a linker, are shared by the CALLER (stored by reference); '
@@ -305,6 +311,13 @@ def make_class(desc, idx):
         ns.update(ALIASES=dict(desc['alias']), PREFERRED_NAMES=list(desc['preferred']))
     if desc['tracer']:
         ns.update(TRACE_VARIABLES=None if desc['trace_vars'] is None else list(desc['trace_vars']))
+    if desc.get('parsed'):
+        # a class built by the parser (fsic.build_model(fsic.parse_model(script))): its own class-level lists and its own _evaluate
+        parsed = fsic.build_model(fsic.parse_model(desc['parsed']))
+        assert (list(parsed.ENDOGENOUS), list(parsed.EXOGENOUS), list(parsed.NAMES), parsed.LAGS, parsed.LEADS, parsed.CHECK is parsed.ENDOGENOUS) == \
+               (desc['endo'], desc['exo'], desc['endo'] + desc['exo'], desc['lags'], desc['leads'], True), 'parser output differs from the case description'
+        ns = {k: v for k, v in ns.items() if k in ('ALIASES', 'PREFERRED_NAMES', 'TRACE_VARIABLES')}
+        return type('M%d' % idx, tuple(bases) + (parsed,), ns)
     if desc['kind'] == 'model':
         def _evaluate(self, t, **kwargs):
             for name, v in CUR['writes'].get(id(self), []):
@@ -579,7 +592,9 @@ def run_op_(roots, i, o, enc):
             x.solve_t(t, **kw)
         finally:
             CUR['writes'] = {}
-        return {'status': str(x.status[t]), 'iters': int(x.iterations[t])}
+        # (a parser-built class runs its own equations: what they left in period t is what the model's passes write)
+        return {'status': str(x.status[t]), 'iters': int(x.iterations[t]),
+                'final': [[nm, lib.fhex(x.__dict__['_' + nm][t])] for nm in type(x).ENDOGENOUS if '_' + nm in x.__dict__]}
     elif k == 'trace_t':
         _, t, label, trace, reset = o
         x.trace_t(t, label, trace=trace, reset=reset)
@@ -757,6 +772,8 @@ def c_ops(case, ev, out, enc, kinds):
         if 'exc' in out:
             return partial_trace(o[1], o[3], False)
         _, t, writes, trace = o
+        if desc.get('parsed'):
+            writes = out['final']
         tr = 'None' if trace is None else '(Some (%s, %s, %s, %s))' % (c_tmode(trace, desc, enc), cz(enc.code('start')), cz(enc.code('before')), cz(enc.code('end')))
         return ['@solve'] + ['(solve_ops %s %s %d%%nat %s %s %s)' % (cz(t), cpairs((enc.code(nm), val(v)) for nm, v in writes), out['iters'],
                                                                   cz(enc.code(out['status'])), cz(enc.code(out['iters'])), tr)]
@@ -1061,7 +1078,7 @@ def oracle(case, obs):
     allowed = expected_shared_pairs(case)
     derived = {d[0]: d for d in obs['derived']}
     kinds = root_kinds(case)
-    # 1. copies: same class, original untouched, equal state, same internal aliasing
+    # 1. copies: same class, original untouched, equal observable state
     for c in obs['copy_checks']:
         if not c['same_class']:
             bad('%s|class' % c['route'], '%s returned an object of another class' % c['route'])
@@ -1069,8 +1086,16 @@ def oracle(case, obs):
             bad('%s|original-changed' % c['route'], 'taking a copy changed the original')
         if not c['equal']:
             bad('%s|state-differs' % c['route'], 'copy is not equal to the original: %s' % c['diff'])
-        # (aliasing BETWEEN components of one object — Trace.names is model.names after a traced solve, one span list handed to two
-        # submodels — is not preserved by the entry-by-entry deep copy; the property does not ask for it: C17 owns Trace.names)
+        # aliasing BETWEEN components of one object: the copy must not alias what the original keeps apart (two variables backed by
+        # one array would make a later write to one of them change the other: not observationally equal).  The converse — Trace.names
+        # is model.names after a traced solve, one span list handed to two submodels: the entry-by-entry deep copy separates them —
+        # is not asked for by the property (C17 owns Trace.names)
+        rep = {json.dumps(p2): json.dumps(p1) for p1, p2 in c['aliases_src']}      # path -> first path to the same object
+        extra = [[p1, p2] for p1, p2 in c['aliases_new']
+                 if rep.get(json.dumps(p1), json.dumps(p1)) != rep.get(json.dumps(p2), json.dumps(p2))]
+        if extra:
+            bad('%s|new-internal-alias' % c['route'], 'inside the copy two paths lead to ONE object although they lead to two objects '
+                'inside the original: %s' % extra[:2])
     # 2. identity scan
     leak_paths = {}
     for i, attr, p in obs['class_leaks']:
@@ -1088,10 +1113,6 @@ def oracle(case, obs):
         is_class_i = i < len(case['classes'])
         if is_class_i and j >= len(case['classes']):
             bad('instance-reaches-class-mutable|%s' % _attr_of(l[0][0]), 'root %d (instance) and its class share a mutable object (class path %s, instance path %s)' % (j, l[0][0], l[0][1]))
-        elif di and di[1] == 'reindex' and di[2] == j:
-            bad('reindex|shared-object-cells', 'reindex() result shares %d object(s) with the original (object-dtype cells copied by reference), e.g. at path %s' % (len(l), l[0][1]))
-        elif dj and dj[1] == 'reindex' and dj[2] == i:
-            bad('reindex|shared-object-cells', 'reindex() result shares %d object(s) with the original (object-dtype cells copied by reference), e.g. at path %s' % (len(l), l[0][1]))
         elif is_class_i and j < len(case['classes']):
             bad('classes-share', 'two classes share a mutable object')
         else:
@@ -1116,9 +1137,7 @@ def oracle(case, obs):
         if (a in leaky or a < ncls) and (b in leaky) and all(
                 any(pq[1][:len(p)] == p for p in leak_paths.get(b, [])) for pq in share_of.get((a, b), [])) and share_of.get((a, b)):
             continue          # visible only through the leaked class-level object: reported under 3.
-        if ((dj and dj[1] == 'reindex' and dj[2] == i) or (di and di[1] == 'reindex' and di[2] == j)):
-            sig = 'reindex|shared-object-cells'
-        elif i < len(case['classes']) or j < len(case['classes']):
+        if i < len(case['classes']) or j < len(case['classes']):
             sig = 'class-instance|mutation-visible'
         else:
             sig = 'mutation-visible|%s' % ((dj or di or [0, '?'])[1])
@@ -1167,6 +1186,10 @@ def shrink_candidates(case):
 
 # --------------------------------------------------------------------------- generator
 FLOATS = [0.0, 1.0, 2.5, -3.0, 4.25, 10.0]
+# parser-built classes: (script, ENDOGENOUS, EXOGENOUS, LAGS, LEADS) as fsic.parse_model / build_model produce them (asserted in impl)
+PARSED = [('Y = C + G\nC = 0.5 * Y[-1] + W', ['Y', 'C'], ['G', 'W'], 1, 0),
+          ('C = 0.25 * K\nY = C + G', ['C', 'Y'], ['K', 'G'], 0, 0),
+          ('Y = 0.5 * Y[-1] + G[1]', ['Y'], ['G'], 1, 1)]
 
 
 class Shadow:
@@ -1192,8 +1215,13 @@ def gen_case(rng, flavour, uniq):
     names = rng.sample(['Y', 'C', 'G', 'K', 'W'], rng.randint(2, 3))
     endo = names[:rng.randint(1, len(names) - 1)]
     exo = names[len(endo):]
+    parsed = None
+    if flavour == 'parsed':
+        parsed, endo, exo, plags, pleads = rng.choice(PARSED)
+        endo, exo = list(endo), list(exo)
+        names = endo + exo
     alias = None
-    if flavour in ('alias', 'both'):
+    if flavour in ('alias', 'both') or (parsed and rng.random() < 0.3):
         alias = {'GDP': names[0]}
         if rng.random() < 0.5:
             alias['AL2'] = names[-1]
@@ -1204,6 +1232,8 @@ def gen_case(rng, flavour, uniq):
             'tracer': tracer, 'trace_vars': (None if rng.random() < 0.55 else list(endo)) if tracer else None}
     if flavour == 'container':
         desc.update(endo=[], exo=[], check=None, lags=0, leads=0)
+    if parsed:
+        desc.update(parsed=parsed, check=None, lags=plags, leads=pleads)
     classes.append(desc)
     if flavour == 'linker':
         classes.append({'kind': 'linker', 'endo': ['LV'], 'exo': [], 'check': None if rng.random() < 0.5 else [], 'lags': 0, 'leads': 0,
@@ -1444,10 +1474,10 @@ def finish(case):
 def gen(rng, tier):
     cases = []
     uniq = [0]
-    n = 1400 if tier == 'quick' else 14000
-    flavours = ['model', 'model', 'alias', 'tracer', 'tracer', 'both', 'container', 'linker']
+    n = 3000 if tier == 'quick' else 16000
+    flavours = ['model', 'parsed', 'alias', 'tracer', 'tracer', 'both', 'container', 'linker']
     # fixed corpus first: the known sharing situations
-    for fl in ('tracer', 'both', 'model', 'linker', 'container', 'alias'):
+    for fl in ('tracer', 'both', 'model', 'parsed', 'linker', 'container', 'alias'):
         for _ in range(6):
             cases.append(gen_case(rng, fl, uniq))
     for _ in range(n):
